@@ -3,7 +3,8 @@
      render cv l   the canonical string of a component list
    normalize_path is [render (pc p)] (case-folded as the convention asks); everything else follows. *)
 From Coq Require Import NArith List Bool Lia Arith.
-From CS Require Import Sx Str StrLemmas PathModel.
+From CS Require Import Sx Str PathModel.
+From CS Require Export StrLemmas.
 Import ListNotations.
 
 (* ------------------------------------------------------------------ hypotheses on the case fold *)
